@@ -51,7 +51,7 @@ func GenCrash(seed uint64, prop string, tier string) *Case {
 		c.Crash.Depth = 2 + r.Intn(2)
 		c.Crash.Nested = 3
 		if tier == "thorough" {
-			c.Crash.Nested = 12
+			c.Crash.Nested = 6
 		}
 	}
 	if prop == "C14" {
@@ -61,6 +61,14 @@ func GenCrash(seed uint64, prop string, tier string) *Case {
 		c.Crash.Sample = 0
 	}
 	c.Sim.Poison = r.Intn(4) == 0
+	// half of the recording runs end with Close on whatever is still queued (no drain, no final sweep):
+	// crash points inside a Close that overlaps pending flushes
+	if r.Intn(2) == 0 {
+		c.Final = false
+		if r.Intn(2) == 0 {
+			c.Sim.Strategy = simrt.StratStarve
+		}
+	}
 	return c
 }
 
@@ -82,7 +90,11 @@ func checkCrash(res *RunResult, prop string) *Eval {
 	recoverAll = func(images []*CrashImage, depth int) {
 		nestedPick := map[int]bool{}
 		if depth < c.Crash.Depth && len(images) > 0 {
-			for i := 0; i < c.Crash.Nested; i++ {
+			n := c.Crash.Nested
+			if depth > 1 {
+				n = (n + 2) / 3 // the third level is sampled more thinly
+			}
+			for i := 0; i < n; i++ {
 				nestedPick[rng.Intn(len(images))] = true
 			}
 		}
